@@ -2513,8 +2513,15 @@ func (c *streamableClientConn) handleSSE(ctx context.Context, requestSummary str
 	var prevLastEventID string
 	retriesWithoutProgress := 0
 
+	// lastEventID is the resume cursor of the logical stream: it survives bodies
+	// that end before delivering any new event.
+	lastEventID := ""
 	for {
-		lastEventID, reconnectDelay, clientClosed := c.processStream(ctx, requestSummary, resp, forCall)
+		var (
+			reconnectDelay time.Duration
+			clientClosed   bool
+		)
+		lastEventID, reconnectDelay, clientClosed = c.processStreamFrom(ctx, requestSummary, resp, forCall, lastEventID)
 
 		// If the connection was closed by the client, we're done.
 		if clientClosed {
@@ -2608,6 +2615,16 @@ func (c *streamableClientConn) checkResponse(ctx context.Context, requestSummary
 // indicating if the connection was closed by the client. If resp is nil, it
 // returns "", false.
 func (c *streamableClientConn) processStream(ctx context.Context, requestSummary string, resp *http.Response, forCall *jsonrpc.Request) (lastEventID string, reconnectDelay time.Duration, clientClosed bool) {
+	return c.processStreamFrom(ctx, requestSummary, resp, forCall, "")
+}
+
+// processStreamFrom is processStream for a body that resumes a logical stream
+// whose last received event ID is resumeID (or "" if there is none).
+//
+// The returned lastEventID starts from resumeID: a resumed body that ends
+// before any new event arrives must not make the stream look unresumable.
+func (c *streamableClientConn) processStreamFrom(ctx context.Context, requestSummary string, resp *http.Response, forCall *jsonrpc.Request, resumeID string) (lastEventID string, reconnectDelay time.Duration, clientClosed bool) {
+	lastEventID = resumeID
 	defer func() {
 		// Drain any remaining unprocessed body. This allows the connection to be re-used after closing.
 		io.Copy(io.Discard, resp.Body)
